@@ -41,8 +41,9 @@ def match(kf, prop, result, failure):
     if '#kf' not in sub:
         return None
     base, _, lab = sub.partition('#kf')
+    lab = re.match(r'\d+', lab).group(0)
     for k in for_job(kf, base):
-        if 'kf%d' % k['line'] != 'kf' + lab:
+        if str(k['line']) != lab:
             continue
         name = (failure.get('clause') or '') + ' ' + failure['desc']
         if re.search(k['clause'], name):
